@@ -68,6 +68,7 @@ type SRow struct {
 	S int `json:"s"`
 	T int `json:"t"`
 	F int `json:"f"`
+	P int `json:"p,omitempty"` // KiB of incompressible padding appended to the string field (large records)
 }
 
 // sVal is a typed field value.
@@ -87,6 +88,9 @@ func (v sVal) String() string {
 	case influxql.Float:
 		return fmt.Sprintf("%v(w%d)", v.F, v.W)
 	case influxql.String:
+		if len(v.S) > 48 {
+			return fmt.Sprintf("%q...[%d bytes](w%d)", v.S[:48], len(v.S), v.W)
+		}
 		return fmt.Sprintf("%q(w%d)", v.S, v.W)
 	case influxql.Boolean:
 		return fmt.Sprintf("%v(w%d)", v.B, v.W)
@@ -134,11 +138,28 @@ func cellValue(w int, r SRow, f string) sVal {
 	case "ff":
 		return sVal{Typ: influxql.Float, F: float64(int64(w)*1000000+cell) / 8.0, W: w}
 	case "fs":
-		return sVal{Typ: influxql.String, S: fmt.Sprintf("w%d.c%d", w, cell), W: w}
+		v := fmt.Sprintf("w%d.c%d", w, cell)
+		if r.P > 0 {
+			v += "." + padString(uint64(w)*1000003+uint64(cell), r.P*1024)
+		}
+		return sVal{Typ: influxql.String, S: v, W: w}
 	case "fb":
 		return sVal{Typ: influxql.Boolean, B: (int64(w)+cell)%2 == 0, W: w}
 	}
 	panic("unknown field " + f)
+}
+
+// padString: n bytes of printable, poorly compressible text derived from seed.
+func padString(seed uint64, n int) string {
+	b := make([]byte, n)
+	x := seed
+	for i := range b {
+		if i%8 == 0 {
+			x = mix64(x, uint64(i))
+		}
+		b[i] = byte(33 + (x>>(8*uint(i%8)))%90)
+	}
+	return string(b)
 }
 
 func mix64(a, b uint64) uint64 {
@@ -358,7 +379,8 @@ func (m *sModel) classifyM(mst int, series string, t int64, f string, got sVal) 
 			continue
 		}
 		for _, w := range hs[f] {
-			if cellValue(w, SRow{M: k.M, S: k.S, T: k.T}, f).equal(got) {
+			ref := cellValue(w, SRow{M: k.M, S: k.S, T: k.T}, f)
+			if ref.equal(got) || (f == "fs" && strings.HasPrefix(got.S, ref.S+".")) {
 				return "stale_value"
 			}
 		}
